@@ -174,8 +174,12 @@ class MetricReceiver(CarbonServerProtocol, TimeoutMixin):
       return
     if datapoint[1] != datapoint[1]:  # filter out NaN values
       return
+    try:
+      timestamp = int(datapoint[0])
+    except (ValueError, OverflowError):  # filter out NaN and infinite timestamps
+      return
     # use current time if none given: https://github.com/graphite-project/carbon/issues/54
-    if int(datapoint[0]) == -1:
+    if timestamp == -1:
       datapoint = (time.time(), datapoint[1])
     res = settings.MIN_TIMESTAMP_RESOLUTION
     if res:
@@ -190,7 +194,12 @@ class MetricLineReceiver(MetricReceiver, LineOnlyReceiver):
 
   def lineReceived(self, line):
     if sys.version_info >= (3, 0):
-      line = line.decode('utf-8')
+      try:
+        line = line.decode('utf-8')
+      except UnicodeDecodeError:
+        log.listener('invalid line received from client %s, ignoring [%s]' %
+                     (self.peerName, repr(line[:400])[2:-1]))
+        return
 
     try:
       metric, value, timestamp = line.strip().split()
@@ -218,9 +227,20 @@ class MetricDatagramReceiver(MetricReceiver, DatagramProtocol):
   def datagramReceived(self, data, addr):
     (host, _) = addr
     if sys.version_info >= (3, 0):
-      data = data.decode('utf-8')
+      try:
+        lines = data.decode('utf-8').splitlines()
+      except UnicodeDecodeError:
+        # decode line by line so that only the undecodable lines are lost
+        lines = []
+        for chunk in data.split(b'\n'):
+          try:
+            lines.extend(chunk.decode('utf-8').splitlines())
+          except UnicodeDecodeError:
+            log.listener('invalid line received from %s, ignoring [%s]' % (host, repr(chunk)[2:-1]))
+    else:
+      lines = data.splitlines()
 
-    for line in data.splitlines():
+    for line in lines:
       try:
         metric, value, timestamp = line.strip().split()
         datapoint = (float(timestamp), float(value))
